@@ -75,7 +75,7 @@ func TestVerifBounded_C06_Gossip(t *testing.T) {
 				})
 			}
 		}
-		time.Sleep(20 * time.Millisecond)
+		time.Sleep(300 * time.Millisecond) // let the six watcher goroutines register (also on a loaded machine)
 		var pending [][3]interface{} // from, to, msg
 		clock := time.Now().Unix()
 		var trace []string
